@@ -50,6 +50,11 @@ def run_case(case):
     meas = inf.expand(case['meas'], attrs, shape, X)
     metric = case['metric']
     eng = mbi.FactoredInference(domain, metric=metric, iters=1)
+    if case['dir_seed'] % 3 == 0:
+        # the engine has been set up before, for (a prefix of) the same queries with other answers
+        prior = eng.fix_measurements([(q, y[::-1].copy() + 1.0, nz, pr) for q, y, nz, pr in [m.tuple for m in meas][:max(1, len(meas) - 1)]])
+        eng._setup(prior, total)
+        out.classes.append('engine_set_up_before')
     ms = eng.fix_measurements([m.tuple for m in meas])
     eng._setup(ms, total)
     model = eng.model
